@@ -105,7 +105,7 @@ func (nds *NumpyDataset) ToColumnSeries(options ...int) (cs *ColumnSeries, err e
 	}
 
 	cs = NewColumnSeries()
-	if len(nds.ColumnData[0]) == 0 {
+	if len(nds.ColumnData) == 0 {
 		return cs, nil
 	}
 	/*
@@ -165,7 +165,11 @@ func (nmds *NumpyMultiDataset) ToColumnSeriesMap() (csm ColumnSeriesMap, err err
 				return nil, err
 			}
 		} else {
-			cs = NewColumnSeries()
+			// no rows: keep the bucket with its (empty) columns
+			cs, err = nmds.ToColumnSeries(0, 0)
+			if err != nil {
+				return nil, err
+			}
 		}
 		tbk := NewTimeBucketKeyFromString(tbkStr)
 		csm.AddColumnSeries(*tbk, cs)
